@@ -91,6 +91,23 @@ def check(ctx):
                 else:
                     for v in (["plain", "vecbuf", "iov", "vec"] if n < 1000 else [rng.choice(["plain", "vecbuf"]), rng.choice(["iov", "vec"])]):
                         lines.append("Enc %s %s" % (v, partitions(rng, p, False)[0] if v in ("iov", "vec") else gc.fmt(p)))
+    # worst-case contents (every byte a marker / escape byte: the frame reaches 2n+4) at lengths around the powers of two up to 4096
+    # (and up to 65536 in the thorough tier) - where a fixed-size staging buffer or a doubled size computation would give way
+    for name in gc.NAMES:
+        sp = gc.special_bytes(name)
+        cx = gc.cx_of(name)
+        lines.append("R %s 8" % name)
+        big = [127, 128, 129, 255, 256, 257, 511, 512, 513, 1023, 1024, 1025, 2046, 2047, 2048, 2049, 4095, 4096, 4097]
+        if ctx.thorough: big += [8191, 8192, 16383, 16384, 32767, 32768, 65535, 65536]
+        for n in big:
+            fills = [[cx["START"]] * n, [cx["STUB"]] * n, [rng.choice([cx["START"], cx["STOP"], cx["STUB"]]) for _ in range(n)]]
+            one = [cx["STOP"]] * n; one[rng.randrange(n)] = rng.randrange(256); fills.append(one)
+            for p in (fills if n <= 4097 else fills[:2]):
+                if name == "legacy":
+                    lines.append("Enc plain %s" % gc.fmt(p))
+                else:
+                    for v in (["plain", "vecbuf", "iov", "vec"] if n <= 1025 else ["vecbuf", "vec", rng.choice(["plain", "iov"])]):
+                        lines.append("Enc %s %s" % (v, partitions(rng, p, False)[0] if v in ("iov", "vec") else gc.fmt(p)))
     # executions of moderate size
     script = []
     cur_name = None
